@@ -23,9 +23,14 @@ type Execution struct {
 }
 
 func NewExecution(query promql.Query, pool *model.VectorPool, opts *query.Options) *Execution {
+	// The remote engine has already applied the lookback delta: its result has a point
+	// at exactly those steps at which a series has a value. Reading it with a lookback
+	// would keep series alive after they have ended or gone stale.
+	remoteOpts := *opts
+	remoteOpts.LookbackDelta = 0
 	return &Execution{
 		query:          query,
-		vectorSelector: scan.NewVectorSelector(pool, newStorageFromQuery(query), opts, 0, 0, 1),
+		vectorSelector: scan.NewVectorSelector(pool, newStorageFromQuery(query), &remoteOpts, 0, 0, 1),
 	}
 }
 
